@@ -135,6 +135,23 @@ def run(chk: Check):
             bounds = [[0.0] * d, [p * rng.randint(1, 2) for p in prec]]
             sp = SearchSpace(bounds, prec, False)
             chk.count("space:tiny")
+        if (not edge) and (si % 6 == 0 or si % 12 == 5):
+            # parameters whose grids look alike: same number of points, element-wise within the usual "close enough" tolerances
+            # (rtol 1e-5 / atol 1e-8), but different values: tiny scales, or nearly coinciding offsets
+            from black_it.search_space import SearchSpace
+            n = rng.randint(4, 20)
+            if rng.random() < 0.5:
+                u = 10.0 ** rng.randint(-12, -10)
+                steps = rng.sample([1.0, 2.0, 3.0, 5.0, 7.0], rng.randint(2, 3))
+                prec = [u * k for k in steps]
+                bounds = [[0.0] * len(prec), [p * n for p in prec]]
+            else:
+                base = rng.choice([1000.0, -250.0, 4096.0]); p0 = rng.choice([0.1, 0.25, 0.5])
+                shifts = [0.0] + [rng.choice([0.001, 0.002, -0.0015]) for _ in range(rng.randint(1, 2))]
+                prec = [p0] * len(shifts)
+                bounds = [[base + sft for sft in shifts], [base + sft + n * p0 for sft in shifts]]
+            sp = SearchSpace(bounds, prec, False)
+            chk.count("space:look-alike_grids")
         int_hist = (not edge) and si % 4 == 2
         if int_hist:
             from black_it.search_space import SearchSpace
